@@ -24,6 +24,7 @@ LEVEL_TEXT = ("Taint/sanitiser rules: every guest->host path function must use o
               "idioms that make '..' harmless (checked on its AST/def-use), link resolution must cover every component, the joined path is never returned where its islink test did not come out false, "
               "and every host file-system call in os_dep must receive a sanitised path. Decides these clauses for all "
               "guest paths; performs no file-system access.")
+LEVEL_TEXT += " Accepted idioms include a component stack built by a module helper whose append is guarded by != '..' (must-facts)."
 ASSUMPTIONS = ["CPython ast; os.path.normpath/join/realpath semantics as documented",
                "host file-system sinks are the os/open calls enumerated in SINKS (re-derived per run over os_dep)"]
 
